@@ -784,13 +784,31 @@ func (a *Aff) edgeAssume(b *cfg.Block, si int, st *affSpace) *affSpace {
 		d := l.add(r, -1)
 		eq := be.Op == token.EQL && !f.Neg || be.Op == token.NEQ && f.Neg
 		if !eq {
-			// len(x) > 0 false, len(x) >= 1 false, 0 < len(x) false  =>  len(x) == 0   (len >= 0)
-			if lenTerm := a.singleLen(d); lenTerm != nil && f.Neg {
+			// len(x) > 0 false, len(x) >= 1 false, 0 < len(x) false  =>  len(x) == 0   (len >= 0); the same for the
+			// positive forms (len(x) <= 0 true, len(x) < 1 true) and for an integer that the state proves equal to a
+			// length (a parameter bound to len(buf))
+			if lenTerm := a.nonNegTerm(d, st); lenTerm != nil {
+				op := be.Op
+				if !f.Neg {
+					// turn the positive fact into the negation of its complement
+					switch op {
+					case token.LEQ:
+						op = token.GTR
+					case token.LSS:
+						op = token.GEQ
+					case token.GEQ:
+						op = token.LSS
+					case token.GTR:
+						op = token.LEQ
+					default:
+						op = token.ILLEGAL
+					}
+				}
 				switch {
-				case be.Op == token.GTR && d.c.Sign() == 0 && lenTerm.Sign() > 0,
-					be.Op == token.LSS && d.c.Sign() == 0 && lenTerm.Sign() < 0,
-					be.Op == token.GEQ && lenTerm.Sign() > 0 && new(big.Rat).Add(d.c, lenTerm).Sign() == 0,
-					be.Op == token.LEQ && lenTerm.Sign() < 0 && new(big.Rat).Add(d.c, lenTerm).Sign() == 0:
+				case op == token.GTR && d.c.Sign() == 0 && lenTerm.Sign() > 0,
+					op == token.LSS && d.c.Sign() == 0 && lenTerm.Sign() < 0,
+					op == token.GEQ && lenTerm.Sign() > 0 && new(big.Rat).Add(d.c, lenTerm).Sign() == 0,
+					op == token.LEQ && lenTerm.Sign() < 0 && new(big.Rat).Add(d.c, lenTerm).Sign() == 0:
 					z := d.clone()
 					z.c.SetInt64(0)
 					eq, d = true, z
@@ -802,6 +820,34 @@ func (a *Aff) edgeAssume(b *cfg.Block, si int, st *affSpace) *affSpace {
 		}
 	}
 	return st
+}
+
+// nonNegTerm: d is k*t + c for exactly one quantity t that cannot be negative — the length of a tracked slice,
+// or an integer the state proves equal to one; returns k.
+func (a *Aff) nonNegTerm(d *affForm, st *affSpace) *big.Rat {
+	if k := a.singleLen(d); k != nil {
+		return k
+	}
+	var k *big.Rat
+	vi := -1
+	for i, cf := range d.coef {
+		if cf.Sign() == 0 {
+			continue
+		}
+		if k != nil {
+			return nil
+		}
+		k, vi = cf, i
+	}
+	if k == nil || st == nil || st.bottom {
+		return nil
+	}
+	for j := range a.vars {
+		if a.vars[j].kind == affLen && j != vi && st.holds(a.VarForm(vi).add(a.VarForm(j), -1)) {
+			return k
+		}
+	}
+	return nil
 }
 
 // singleLen: d is k*len(x) + c for exactly one tracked slice x; returns k.
@@ -1124,6 +1170,17 @@ func (a *Aff) runFrom(entry *affSpace, atExit func(*affSpace)) {
 		st := a.in[b.Index]
 		for _, nd := range b.Nodes {
 			st = a.transfer(nd, st)
+		}
+		// an exit that hands back a definite error is not a completion of the helper's work; a block that ends
+		// in a call that never returns is no exit at all
+		if len(b.Nodes) > 0 {
+			last := b.Nodes[len(b.Nodes)-1]
+			if r, ok := last.(*ast.ReturnStmt); ok && a.depth > 0 && definiteErrorReturn(a.fg, a.info, a.fn, r) {
+				continue
+			}
+			if endsInNoReturn(a.info, last) {
+				continue
+			}
 		}
 		atExit(st)
 	}
